@@ -197,5 +197,18 @@ CLAIMS = {
          "SciPy's special functions and root finder: bounded brute-force checks, labelled bounded.",
     note="Thin by nature: a contract on this code can pin the wiring, not the statistics. Trusted: sympy, shims. Not covered deductively: order_stats('r'), ('p').",
     technique="real functions executed with uninterpreted distribution functions (term equality), symbolic Newton-step check (sympy); bounded brute-force checks for the probabilistic clauses"),
+ "C12": dict(
+    text="format_float8, format_float16, format_double16 (with _format_scientific8/16) and nas_sscanf are re-parsed from the working tree and executed symbolically "
+         "(vc/strsym.py: an interpreter for the Python subset they use over a symbolic-string domain; z3 decides every branch, all feasible paths explored) for "
+         "v = +-m 10^e with 1 <= m < 10 symbolic and e a concrete decade - the thorough tier runs every decade -324..308 of the double range, the quick tier every "
+         "decade from 1e-17 to 1e17, every exponent-length change (1e+-9/10, 1e+-99/100, 1e+-307/308, 1e-323/324) and a thinned set elsewhere. On every path: "
+         "O1 the field is exactly 8/16 characters; O2 it is a real literal (decimal point or exponent); O3 nas_sscanf (run symbolically on the symbolic text, "
+         "including its int -> float -> d->e -> sign->e+- fall-through chain) returns a float; O4 |nas_sscanf(field) - v| <= 0.505 units of the last digit the "
+         "width allows for that sign and decade (best of fixed and scientific notation), with the two-stage rounding of the scientific helpers modelled. "
+         "Zero and -0.0 concretely. Cards of 1..60 fields through wtcard8/16/16d -> rdcards (fixed and comma-separated): bounded round trip. Two genuine defects "
+         "found by O1/O2 were repaired in the repository (see KNOWN_FINDINGS).",
+    note="Trusted: z3, the interpreter and string domain in vc/strsym.py, the CPython format/float/int contracts stated there (rounding modelled as 'within 1/2', ties "
+         "both ways - a sound over-approximation). Doubles are reals. Not covered deductively: wtcard*/_rdfixed/_rdcomma.",
+    technique="symbolic execution of the real source (AST re-parsed every run) over a symbolic decimal-string domain, per decade and sign, all paths; obligations discharged by z3 (LIA/LRA); counterexample doubles replayed on the real functions; bounded card round trips"),
 }
 NOT_APPLICABLE = {}
